@@ -92,8 +92,9 @@ theorem delivered_is_reassembly (i r : Bool) (g : Option Nat) (ops : List EOp) (
 
 /-! ## Hostile peer: protocol violations are refused -/
 
-/-- **Hostile peer, clause "refused with an error"**: a data segment that violates the protocol in
-one of the ways named by the property — wrong sequence number, window overrun, acknowledgement of
+/-- **Hostile peer, clause "refused with an error"** (⇒ direction, kept under its old name; the
+full statement is `segment_refused_iff` below): a data segment that violates the protocol in one of
+the ways named by the property — wrong sequence number, window overrun, acknowledgement of
 something that is not awaiting one, inconsistent length or flags (`Spec.mustReject`, evaluated on
 the protocol-level view `viewOf s` of the state) — is refused with `InvalidData`; the state is
 unchanged (`Except`), so by `delivered_is_reassembly` it can never reach the application. -/
@@ -102,13 +103,48 @@ theorem hostile_segment_refused (s : Session) (hs : SInv s) (h : Hdr) (hh : h.Wf
     s.processRxData h p now = .error .invalidData :=
   mustReject_refused s hs h hh hhs p now hm
 
-/-- Non-vacuity: on an established session (window 5, nothing sent yet) a stand-alone
-acknowledgement of the never-sent sequence number 77 is a violation, and so is a data segment with
-sequence number 5 when 0 is expected. -/
+/-- **`segment_refused_iff`** (one step, every state satisfying the invariant): a decoded data
+segment (`h.hs = false`) is refused with `InvalidData` **if and only if** it violates the protocol
+as specified by `Spec.mustReject` — wrong sequence number; window overrun; acknowledgement of a
+sequence number that is not among the `outstanding` most recently sent ones (`Spec.awaitingAck`,
+written from the meaning, equivalent to the code's wrap-around test by `mem_awaitingAck`);
+inconsistent flags (`Spec.badFlags`: management opcode, no flag at all, stand-alone acknowledgement
+with data, beginning+continue, short non-final segment, one-segment message not final) or length
+(`Spec.badLength`) — or the receive buffer has no room for it (`Spec.noRoom`, a resource limit, not
+a protocol violation; never the case between two well-behaved ends, `never_refused`). Otherwise the
+segment is accepted: there is no other outcome (second conjunct), in particular no other error
+kind and no panic.  Handshake segments (`h.hs = true`) are not covered by this statement
+(`process_rx_total` covers them: accepted with the invariant or a clean error). -/
+theorem segment_refused_iff (s : Session) (hs : SInv s) (h : Hdr) (hh : h.Wf) (hhs : h.hs = false)
+    (p : List Nat) (now : Nat) :
+    (s.processRxData h p now = .error .invalidData ↔
+      (Spec.mustReject (viewOf s) h p = true ∨ Spec.noRoom (ringFree s.recv.buf) h p = true)) ∧
+    ((∃ s', s.processRxData h p now = .ok s') ↔
+      (Spec.mustReject (viewOf s) h p = false ∧ Spec.noRoom (ringFree s.recv.buf) h p = false)) :=
+  segment_refused_iff_aux s hs h hh hhs p now
+
+/-- the acknowledgement clause of `Spec.mustReject` (membership in the list of sequence numbers
+awaiting an acknowledgement) is the code's test `(last_sent − ack) mod 256 < outstanding` -/
+theorem ack_clause_is_code_test (s : Session) (hs : SInv s) (a : Nat) (ha : a < 256) :
+    a ∈ Spec.awaitingAck (viewOf s) ↔ wrapSub s.send.lastSent a < s.windowSize - s.send.level :=
+  mem_awaitingAck (viewOf s) a hs.lastLt ha
+    (by show s.windowSize - s.send.level ≤ 256; have := hs.wsLe; omega)
+
+/-- Non-vacuity: on an established session (window 5, segment size 20, nothing sent yet) a
+stand-alone acknowledgement of the never-sent sequence number 77 is a violation, and so are a data
+segment with sequence number 5 when 0 is expected, a segment with beginning+continue, a
+non-final segment that does not fill the segment size, and a management opcode; a well-formed
+one-segment message is not, and is accepted. -/
 example : ∃ s, (Session.fresh false false).processRx none [0x65, 0x6c, 4, 0, 0, 0, 23, 0, 5] 0 = .ok s ∧
     Spec.mustReject (viewOf s) { ack := true, ackNum := 77, seqNum := 0 } [] = true ∧
-    Spec.mustReject (viewOf s) { beg := true, fin := true, msgLen := 1, seqNum := 5 } [7] = true := by
-  exact ⟨_, rfl, by decide, by decide⟩
+    Spec.mustReject (viewOf s) { beg := true, fin := true, msgLen := 1, seqNum := 5 } [7] = true ∧
+    Spec.mustReject (viewOf s) { beg := true, cont := true, fin := true, msgLen := 1, seqNum := 0 } [7] = true ∧
+    Spec.mustReject (viewOf s) { beg := true, msgLen := 40, seqNum := 0 } [7] = true ∧
+    Spec.mustReject (viewOf s) { mgmt := true, opcode := 1, beg := true, fin := true, msgLen := 1, seqNum := 0 } [7] = true ∧
+    Spec.mustReject (viewOf s) { beg := true, fin := true, msgLen := 1, seqNum := 0 } [7] = false ∧
+    Spec.noRoom (ringFree s.recv.buf) { beg := true, fin := true, msgLen := 1, seqNum := 0 } [7] = false ∧
+    (∃ s', s.processRxData { beg := true, fin := true, msgLen := 1, seqNum := 0 } [7] 3 = .ok s') := by
+  exact ⟨_, rfl, by decide, by decide, by decide, by decide, by decide, by decide, by decide, _, rfl⟩
 
 /-! ## Window slots and the acknowledgement deadline (session level) -/
 
